@@ -23,3 +23,11 @@ func init() {
 func init() {
 	props["C13"] = &propInfo{engine: "A", level: "model_checking", assume: schedAssume, minOutcomes: 1}
 }
+
+func init() {
+	props["C15"] = &propInfo{engine: "A", level: "model_checking", assume: schedAssume, minOutcomes: 1}
+}
+
+func init() {
+	props["C16"] = &propInfo{engine: "A", level: "model_checking", assume: schedAssume, minOutcomes: 1}
+}
